@@ -490,7 +490,7 @@ func addFieldFiller(
 	if option.matchToInterface && countEmptyInterfaces != 1 {
 		return nil, false, fmt.Errorf("%s need exactly one any parameter in function", context)
 	}
-	if score == bad {
+	if score == bad && !option.matchToInterface {
 		return nil, false, fmt.Errorf("%s no match found between field type %s and function inputs",
 			context, field.Type)
 	}
